@@ -38,6 +38,7 @@ THEOREMS = [
     "Ural.Normpath.resolvePath_eq",
     "Ural.Normpath.segView_render",
     "Ural.Props.C01.canon_no_new_delimiter",
+    "Ural.Props.C01.canon_userinfo_no_nfkc_delim",
     "Ural.Props.C01.canon_quoted_no_delimiter",
     "Ural.Canonicalize.canonHost_idem",
     "Ural.Canonicalize.punyLaws_id",
@@ -112,7 +113,7 @@ TRUSTED = [
     "Lean 4 kernel; axioms audited",
     "urlsplit and the SplitResult accessors (.username .password .hostname .port) are MODELLED (Py/UrlSplit.lean, Py/UrlAccessors.lean) and compared with CPython on every run on the raw, cleaned and printed strings of every case and on the netloc torture strings; the old ops still ship the real parser's components to canonParts, the new op canonicalize_whole lets the model parse by itself, so both ties run; urlunsplit is modelled twice (UrlParts.urlunsplit, Py.urlunsplit20), proved equal (urlunsplit_models_agree) and both compared with the real one",
     "outside the parser model (withheld from the parse streams, counted): str.lower on non-ASCII cased characters of the host, _checknetloc (NFKC), IPv4 tail inside an IPv6 literal; _check_bracketed_host is otherwise the approximation bracketedHostOk",
-    "_checknetloc (urlsplit refuses a netloc whose NFKC form gains one of / ? # @ :) is OUTSIDE the parser model Py.parseUrl, so canonicalize_reparse says nothing about it and the parse_url stream withholds the canonical outputs the real parser refuses for that reason (label outside-model:nfkc-check). What covers it: the oracle re-parses every output with the REAL urlsplit, and the stream nfkc-delimiter-escaped:* (canon_common.nfkc_userinfo_urls: every code point of the regenerated table Gen.nfkcDelimCodes, escaped, in user name / password / both / host / elsewhere x every option setting) feeds it the class. On the unchanged /repo this is the KNOWN finding KF-C01-5 (unquoted mode decodes such a character in the userinfo; the result does not re-parse); patch prepared (notes/fixes/canonicalize-userinfo-nfkc-delimiters.diff), the model does not follow it yet - no lemma about the userinfo of the output (planned: canon_userinfo_no_nfkc_delim, design.d/C01-C02-path.md)",
+    "_checknetloc (urlsplit refuses a netloc whose NFKC form gains one of / ? # @ :) is OUTSIDE the parser model Py.parseUrl, so canonicalize_reparse says nothing about it and the parse_url stream withholds the canonical outputs the real parser refuses for that reason (label outside-model:nfkc-check). What covers it: the oracle re-parses every output with the REAL urlsplit, and the stream nfkc-delimiter-escaped:* (canon_common.nfkc_userinfo_urls: every code point of the regenerated table Gen.nfkcDelimCodes, escaped, in user name / password / both / host / elsewhere x every option setting) feeds it the class. FX-C01-NFKCUSERINFO (formerly KF-C01-5: unquoted mode decoded such a character in the userinfo and the result did not re-parse): safely_unquote_auth_item re-quotes those characters (notes/fixes/canonicalize-userinfo-nfkc-delimiters.diff), the model follows (Model/QuoteAuth.lean; obligation Props.C14.tables_auth_wrapper regenerates what the real function re-quotes by probing every code point) and canon_userinfo_no_nfkc_delim proves that no character of the table is left raw in the canonical user name / password, in either mode - so canonicalize_reparse is about outputs whose userinfo passes the check; the host is never percent-decoded (a raw such character there is refused by the first urlsplit: outside the property)",
     "the label decoder (decode_punycode_hostname on ONE xn-- label; CPython's idna codec underneath) is the abstract parameter `puny`; the driver uses a per-case table of the real function's answers (harness/punylaws.py: decode_label), so the model follows what the host rule really calls and the LAWS stand between a changed decoder and the theorems",
     "the laws assumed of `puny` are hypotheses of the theorems, evaluated on the real decoder for every label of every case and for every label of an enumerated class of ACE labels put into hosts of the case stream (quick: 5806 labels, 7742 hosts; derived from the stringprep tables, NFKC look-alikes of the URL delimiters, the punycode grammar; harness/punylaws.py): PunyLaws (no dot, stable), PunyClean (brings in no URL delimiter, '%', control or white-space character, decodes no label to the empty string), IdnaLaws.same_name (the decoded label has the ASCII-compatible spelling of the label it was given: decoding never changes the NAME). Since /repo d1201a7 the real decoder satisfies same_name on the whole class (the former KF-C01-3 / KF-C01-4 are fixed)",
     "`ace` (the meaning of 'IDNA spelling': ToASCII of one label + ASCII lower-casing) is CPython's idna ENCODER, which ural does not use; abstract in the theorems, its law ace_lower is evaluated per label",
@@ -147,9 +148,10 @@ UNPROVED = (
     "run, not proved (since /repo d1201a7 it does on the whole enumerated class: the former KF-C01-3 - a decoded U+3002 - and KF-C01-4 - a "
     "decoded character whose NFKC form holds a delimiter - are fixed, FX-C01-d1201a7-3/-4, ids retired; the NFKC check itself stays outside "
     "the parser model). The fixed-point form canon_host (canonHost puny host' = canonHost puny host) holds of ANY idempotent decoder and is "
-    "kept as a lemma only. KNOWN FINDING KF-C01-5 (not a theorem gap but a model-domain gap): in unquoted mode a userinfo character whose NFKC form "
-    "holds a url delimiter is decoded and CPython's _checknetloc - outside Py.parseUrl - refuses the result; canonicalize_reparse holds of the model "
-    "parser and does not see it, the oracle does (real urlsplit) on the enumerated class nfkc-delimiter-escaped:*"
+    "kept as a lemma only. FX-C01-NFKCUSERINFO (formerly KNOWN FINDING KF-C01-5, a model-domain gap rather than a theorem gap): in unquoted mode a userinfo character "
+    "whose NFKC form holds a url delimiter was decoded and CPython's _checknetloc - outside Py.parseUrl - refused the result; now "
+    "safely_unquote_auth_item keeps it escaped, the model follows and canon_userinfo_no_nfkc_delim is the lemma about the output (the check "
+    "itself stays outside the parser model; the oracle re-parses with the real urlsplit on the enumerated class nfkc-delimiter-escaped:*)"
 )
 OPTS = [(False, False), (True, False), (False, True), (True, True)]
 DPS = ["https", "https", "http", "ftp", "https://", "wss:"]
@@ -283,19 +285,6 @@ def oracle(case):
 
 
 
-
-def kf_userinfo_nfkc_delimiter(case, failure):
-    """KF-C01-5: in unquoted mode the user name / password is percent-decoded to a character whose compatibility (NFKC)
-    form holds one of '/ ? # @ :' (U+FF20 FULLWIDTH COMMERCIAL AT ...: the 19 code points of the regenerated table
-    Gen.nfkcDelimCodes), which CPython's urlsplit refuses in a netloc: the result no longer parses.  Recognised: the
-    failure is the re-parse with the NFKC message, no law of the label decoder fails, unquoted mode, and the parsed
-    userinfo of the input holds the escapes of such a character (cc.kf_userinfo_nfkc_delimiter_hit re-checks the cause
-    on the real code)."""
-    if case["quoted"] or "no longer parses" not in failure or "under NFKC normalization" not in failure:
-        return False
-    if failure.rstrip().endswith("]") and ("Laws" in failure or "PunyClean" in failure):
-        return False
-    return cc.kf_userinfo_nfkc_delimiter_hit(_url(case), case["dp"])
 
 
 def nontrivial(case):
